@@ -114,6 +114,43 @@ CHECKS.update({
 NOT_BUILT = 'check not built yet in this session (see DESIGN.md §5 for the planned static rules)'
 
 
+
+# clauses added after the fourth round of seeded changes (DESIGN §11 round 4) and the findings they led to
+GEN = (' Generic defect patterns are decided on the files the property is anchored in before the specific rules run: no class-level '
+       'mutable container is mutated through an instance (R31), no closure kept beyond a loop iteration reads a variable the loop rebinds '
+       '(R32), no mapping keyed by an itertools.groupby key is built over a sequence that is not sorted by that key (R33).')
+MORE = {
+    'C01': ' R1k replays every path of the dispatch loop on a finite set of abstract link kinds (nested Flow, processor, function, bound method, '
+           'partial / callable object, empty and non-empty list / tuple of rows, generator, None, integer; vacuous all()/any() over an empty '
+           'collection evaluated as such): a path a kind definitely takes must end in the outcome that kind calls for.',
+    'C03': ' R12w: starting from FileFormat.write_row and following every self / super call that is handed the row, no writer method keeps the '
+           'row or the transformed row in its own state (the bytes of a row are fixed before it continues downstream). R19d: no path of '
+           'write_file_to_output that skips an existing file is open to datapackage.json.',
+    'C04': ' The rename that commits a stream file, or a helper containing it, is called from the package step only (who-may-reach clause of R15).',
+    'C05': ' R12w (writer keeps no row) as in C03; who-may-reach clause of R15 for the stream writer.',
+    'C06': ' R13h: a stream a step has yielded downstream is not drained, materialised or iterated by that step in the statements that follow '
+           '(how far a stream is read is decided by its consumer alone).',
+    'C07': ' R34: what the constructor of a step stores is not accumulated into or rebound from its own previous value by a run (classes), and a '
+           'step function grows nothing that belongs to its factory scope (closures): running the same Flow object again - which is how a '
+           'checkpointed pipeline is run again - does not continue from the previous run. The decoder decides naive / aware on the offset '
+           'component the encoder makes None exactly for naive datetimes.',
+    'C08': ' Who-may-reach clause of R15: only the package step reaches the rename.',
+    'C09': ' R19d: every write_file_to_output path that returns without placing the file carries a test that excludes the descriptor, so the '
+           'descriptor on disk is always the one of this run.',
+    'C10': ' A step that builds a matcher and does more to a resource stream than hand it on asks the matcher in its stream phase too (R6c). '
+           'R9 also demands that a user pattern anchored by concatenation is enclosed in a group (an alternation escapes ^...$).',
+    'C12': ' R32 (late-binding closures) on the key calculator.',
+    'C13': ' R33 (groupby over unsorted headers) on the header de-duplication.',
+    'C14': ' R9 grouping clause on the field-name pattern of set_type.',
+    'C15': ' R9 grouping clause on the field-name patterns of delete_fields / select_fields / rename_fields.',
+    'C20': ' Guards are read with flag locals resolved, and the value of the update keys that reaches storage.write at the end of each path is '
+           'non-None exactly in update mode.',
+}
+for _pid, _c in CHECKS.items():
+    _c['text'] = _c['text'] + MORE.get(_pid, '') + GEN
+    if 'generic defect-pattern rules' not in _c['technique']:
+        _c['technique'] = _c['technique'] + '; generic defect-pattern rules on the anchored files (shared class state, late-binding closures, groupby runs)'
+
 def main():
     checks = []
     for pid in sorted(CHECKS):
